@@ -17,6 +17,18 @@ pub struct Hang {
     pub syscall: String,
     /// clock ticks of CPU time the thread consumed during the one-second sampling interval
     pub cpu_ticks: u64,
+    /// the thread did not hang at all: it panicked (message of the panic)
+    pub panicked: Option<String>,
+}
+
+fn panic_text(p: Box<dyn std::any::Any + Send>) -> String {
+    if let Some(s) = p.downcast_ref::<&str>() {
+        s.to_string()
+    } else if let Some(s) = p.downcast_ref::<String>() {
+        s.clone()
+    } else {
+        "<non-string panic payload>".into()
+    }
 }
 
 fn task_info(tid: i32) -> (String, String, u64) {
@@ -57,21 +69,40 @@ pub fn watched_for<T: Send + 'static>(
             let _ = jh.join();
             Ok(v)
         },
-        Err(_) => {
+        Err(mpsc::RecvTimeoutError::Disconnected) => Err(panicked(tid, jh)),
+        Err(mpsc::RecvTimeoutError::Timeout) => {
             let (s1, c1, t1) = task_info(tid);
             // one more second: maybe it was only slow
             match rx.recv_timeout(Duration::from_secs(1)) {
-                Ok(v) => Ok(v),
-                Err(_) => {
+                Ok(v) => {
+                    let _ = jh.join();
+                    Ok(v)
+                },
+                Err(mpsc::RecvTimeoutError::Disconnected) => Err(panicked(tid, jh)),
+                Err(mpsc::RecvTimeoutError::Timeout) => {
                     let (s2, c2, t2) = task_info(tid);
-                    Err(Hang { tid, state: format!("{}/{}", s1, s2), syscall: format!("{}/{}", c1, c2), cpu_ticks: t2.saturating_sub(t1) })
+                    Err(Hang { tid, state: format!("{}/{}", s1, s2), syscall: format!("{}/{}", c1, c2), cpu_ticks: t2.saturating_sub(t1), panicked: None })
                 },
             }
         },
     }
 }
 
+/// The watched thread is gone without a result: the call under test unwound with a panic.
+fn panicked<T>(tid: i32, jh: std::thread::JoinHandle<T>) -> Hang {
+    let msg = match jh.join() {
+        Err(p) => panic_text(p),
+        Ok(_) => "<thread ended without a result>".into(),
+    };
+    Hang { tid, state: "-".into(), syscall: "-".into(), cpu_ticks: 0, panicked: Some(msg) }
+}
+
 pub fn hang_failure(sig: &str, what: &str, h: Hang) -> Failure {
+    if let Some(msg) = &h.panicked {
+        // no property allows a call of the crate to panic on the inputs the harness generates
+        let hooked = crate::take_panics().join(" | ");
+        return Failure::new("call:panicked", format!("{}: the call panicked instead of returning: {} [{}]", what, msg, hooked));
+    }
     // sleeping ("S") in the same syscall at both samples => established hang, else inconclusive
     let st: Vec<&str> = h.state.split('/').collect();
     let sc: Vec<&str> = h.syscall.split('/').collect();
